@@ -139,6 +139,16 @@ func (p *c10) Run(tier string, seed int64, idx int) core.CaseResult {
 	var res core.CaseResult
 	root := p.gen(seed, idx)
 	r := core.CaseRng(seed, "C10lay", idx)
+	if idx == 0 {
+		// one text with 8000 statements, every argument written as a concatenation (about 12000 '+' signs in
+		// all): each argument is another quoting form of a plain value, however many came before it
+		big := yang.S("module", "gm", yang.S("namespace", "urn:gm"), yang.S("prefix", "gm"))
+		for i := 0; i < 8000; i++ {
+			big.Add(yang.S("gm:n", fmt.Sprintf("value %d of many, it's one", i)))
+		}
+		res.Ev("many_statement_texts", 1)
+		c10Compare(big, yang.Render(big, &yang.Layout{R: r, Quote: 4, Boundary: -1}), "random-many", &res)
+	}
 	// canonical
 	lay := yang.CanonicalLayout()
 	text := yang.Render(root, lay)
